@@ -342,7 +342,7 @@ def combined (d : TokenDef) (src : Str) (b width : Nat) : Except Err (Option (Na
       let ty ← typeOf d (T.beginCombine + off)
       pure (some (e, ⟨ty, value, mkMap src b e⟩))
 
-/-- `parse_symbol` (tokenizer.py:363-394). -/
+/-- `parse_symbol` (tokenizer.py:371-402). -/
 def parseSymbol (d : TokenDef) (src : Str) (b : Nat) : Except Err (Nat × Token) := do
   match ← combined d src b 3 with
   | some r => pure r
@@ -356,10 +356,13 @@ def parseSymbol (d : TokenDef) (src : Str) (b : Nat) : Except Err (Nat × Token)
     | some off =>
       let ty ← typeOf d (Dom.symbol * 16 + off)
       let e := b + 1
+      -- token_type == Minus and end < len(source) and not self.analyze_white_spece(source, end)   (guard added in 6dc3d89:
+      -- a minus as the last character is a binary Minus token)
       if ty = T.minus then
-        -- not self.analyze_white_spece(source, begin + 1)   (IndexError when the minus is the last character)
-        let ws ← charIn d.whiteSpace src (b + 1)
-        if !ws then pure (e, Token.opUnaryMinus (mkMap src b e))
+        if e < src.length then
+          let ws ← charIn d.whiteSpace src e
+          if !ws then pure (e, Token.opUnaryMinus (mkMap src b e))
+          else pure (e, ⟨ty, [value], mkMap src b e⟩)
         else pure (e, ⟨ty, [value], mkMap src b e⟩)
       else pure (e, ⟨ty, [value], mkMap src b e⟩)
 
